@@ -22,6 +22,7 @@ EXPLANATION = (
     "HandlerErased overrides execution - MiddlewarePipeline forwards the inner handler's mode, the blocking wrapper returns "
     "OffReader - and the reader switches on execution() with both arms present. Not decided: enumeration of release orders and "
     "mixes of returning/erroring/panicking handlers (schedules)."
+    ' (permit-before-spawn, closed over spawn sites) every spawn site of the WebSocket server whose closure runs a handler owns an OwnedSemaphorePermit, is reached only behind the Ok / no-semaphore edge and never moves the permit away.'
 )
 ASSUMPTIONS = ["tokio::sync::Semaphore permits are released when the OwnedSemaphorePermit is dropped", "catch_unwind catches handler panics (panic=unwind)"]
 
